@@ -227,7 +227,7 @@ fn check_mul_small<const S: u32>() {
     assert!(v == base || add5(v, P) == base || v == add5(base, P));
     kani::cover!(true);
 }
-// @harness props=C12,C15 kind=full tier=thorough timeout=2400 pairs=mul_small
+// @attempt (not run: CBMC crashes on the 128-bit products) props=C12,C15 kind=full tier=thorough timeout=2400 pairs=mul_small
 #[kani::proof]
 #[kani::unwind(42)]
 fn fe_mul_small_121666() { check_mul_small::<121666>() }
